@@ -1584,7 +1584,7 @@ def parts(tier):
             "signed", run_signed, strategy=signed_cases(tier),
             n={"quick": 320, "thorough": 6400},
             require={
-                "signed_transfer_checked": 100, "unsigned_middle": 20, "multi_message": 50,
+                "signed_transfer_checked": 50, "unsigned_middle": 20, "multi_message": 50,
                 ("excluded:D12b" if EXCLUDE_D12B else "last_unsigned_refused"): 20,
             },
         ),
